@@ -188,7 +188,7 @@ func runC01(c *eng.Ctx) {
 
 	// R7: controller folds results.
 	if syn := c.MustFunc("R7", syncPkg, "controller.synchronize"); syn != nil {
-		c01FoldResults(c, syn)
+		c01FoldResults(c, "R7", syn)
 	}
 }
 
@@ -225,7 +225,7 @@ func c01Dispatch(c *eng.Ctx, rec *ssa.Function, rule string, want map[string]str
 // c01FoldResults: in synchronize (and its goroutine closures) every Change
 // appended to the lists later passed to core.Apply that stems from a transition
 // has Path = transitions[i].Path and New = results[i] with the same index.
-func c01FoldResults(c *eng.Ctx, syn *ssa.Function) {
+func c01FoldResults(c *eng.Ctx, rule string, syn *ssa.Function) {
 	n := 0
 	for _, fn := range eng.WithClosures(syn) {
 		eng.EachInstr(fn, func(i ssa.Instruction) {
@@ -253,12 +253,25 @@ func c01FoldResults(c *eng.Ctx, syn *ssa.Function) {
 			// pr = X[i].Path ; nr must be R[i] with the same index expression, R a results slice.
 			idx := pr[strings.LastIndex(pr, "[")+1 : strings.LastIndex(pr, "]")]
 			okNew := strings.HasSuffix(nr, "["+idx+"]") && strings.Contains(strings.ToLower(nr), "result") || isIndexOfResults(f["New"], idx)
-			c.Check("R7", "fold:"+eng.FuncName(fn), call.Pos(), okNew, "the ancestor receives the transition's reported result at the same index, not the planned content", "Path="+pr+" New="+nr)
+			c.Check(rule, "fold:"+eng.FuncName(fn), call.Pos(), okNew, "the ancestor receives the transition's reported result at the same index, not the planned content", "Path="+pr+" New="+nr)
+			// Every transition is folded: inside the closure the append is
+			// conditional only on the loop bound and on the transition call's error.
+			extra := 0
+			var extraAtom string
+			for _, a := range eng.Guards(call) {
+				isLoop := strings.Contains(a.Expr, " < len(")
+				isErr := strings.HasSuffix(a.Expr, " == nil)") && (strings.Contains(a.Expr, "TransitionErr") || strings.Contains(a.Expr, "Transition("))
+				if !isLoop && !isErr {
+					extra++
+					extraAtom = a.String()
+				}
+			}
+			c.Check(rule, "fold-unconditional:"+eng.FuncName(fn), call.Pos(), extra == 0, "every transition's result is folded into the ancestor (no result is skipped)", extraAtom)
 			c.Analysed(fn)
 		})
 	}
 	if n < 2 {
-		c.Problem("R7", "expected two result-folding appends (alpha, beta) in synchronize, found %d", n)
+		c.Problem(rule, "expected two result-folding appends (alpha, beta) in synchronize, found %d", n)
 	}
 }
 
